@@ -62,14 +62,13 @@ Options == {Opts(om, u, a, e) : om \in {"first", "all", "none", "other"}, u \in 
            {Opts(om, u, a, e) : om \in {"-", "all"}, u \in {"-", "F"}, a \in {"-", "F"}, e \in {"-", "T"}}
 
 Input(t, q, o) == [kind |-> q.kind, rows |-> t, require |-> q.require, colvals |-> q.colvals, opts |-> o]
-Inputs == {Input(t, q, o) : t \in Tables, q \in Requests, o \in Options}
 
 ASSUME /\ "OUT_FILE" \in DOMAIN IOEnv
        => JsonSerialize(IOEnv.OUT_FILE, [tables |-> SetToSeq(Tables), requests |-> SetToSeq(Requests),
                                          options |-> SetToSeq(Options)])
 
 VARIABLE input
-Init == input \in Inputs
+Init == \E t \in Tables, q \in Requests, o \in Options : input = Input(t, q, o)
 Next == UNCHANGED input
 SpecSane == Ok(input, RefObs(input, "start")) /\ Ok(input, RefObs(input, "now"))
 \* the arguments the reference rejects are exactly the four classes of the property
